@@ -349,6 +349,7 @@ func checkC07(r *Run) propMeta {
 	checkBareKeyKeywords(r, g)
 	checkKeyedStores(r)
 	checkTokenMultiplicity(r, vm)
+	checkTokenOrderByColumn(r, vm.pkg)
 	checkEmitterPackageState(r, "C07-R9-emitter-stateless")
 	checkNameCodecSymmetry(r)
 	checkParsedNumbersUnconverted(r)
